@@ -3,12 +3,14 @@ from __future__ import annotations
 
 import ast
 import re
-from typing import Any
+import textwrap
+from typing import Any, Iterator
 
 from jinja2 import nodes
 
 from .. import tplq
-from ..astutil import Locals, call_name, constructs_error, names_in, norm, short, where
+from ..astutil import Locals, call_name, calls_in, constructs_error, names_in, norm, region, stmt_of, where
+from ..cfg import CFG
 from ..core import PKG, Report
 from ..jinja_interp import expr_text
 from ..skeleton import SkelWalker, to_lines
@@ -18,16 +20,28 @@ LEVEL = ("structural clauses (the bytes httpx sends are not decided): wire names
          "values for header/cookie/query; path placeholders rewritten and formatted over the same collection; generated locals "
          "defined under guards implied by every use (truth tables); body-type table exhaustive and consistent with httpx keyword "
          "names, Content-Type from the document's own key; optional arguments guarded; header values converted to str for every "
-         "non-str kind allowed in headers; sync/async variants equal as token streams; security; parameter identity is (name, "
-         "location).")
+         "non-str kind allowed in headers; the query filter drops UNSET and nothing but UNSET / None; sync/async variants equal as token "
+         "streams; security, the credential header overwritten before both httpx clients are built; parameter identity is (name, location).")
+
+
+def _flat(atom: str) -> str:
+    """atom text without grouping parentheses: `(endpoint.bodies|length) eq 1` (the length held in a `set` variable, which reads as
+    its parenthesised definition) and `endpoint.bodies|length eq 1` are the same test"""
+    return atom.replace("(", "").replace(")", "")
 
 
 def _len_key(atom: str) -> tuple[str, str, int] | None:
-    """`X|length gt 1` -> (X, 'gt', 1);  `X` (truthiness of a collection) -> (X, 'gt', 0)"""
-    m = re.fullmatch(r"\(?(.+?)\|length (gt|ge|eq|ne|lt|le) (\d+)\)?", atom)
+    """`X|length gt 1` -> (X, 'gt', 1)"""
+    m = re.fullmatch(r"(.+?)\|length (gt|ge|eq|ne|lt|le) (\d+)", _flat(atom))
     if m:
         return m.group(1), m.group(2), int(m.group(3))
     return None
+
+
+def _coll_key(atom: str) -> str | None:
+    """`endpoint.header_parameters` used as a test (truthiness of a collection) -> the collection"""
+    a = _flat(atom)
+    return a if re.fullmatch(r"endpoint\.(\w*_parameters|bodies)", a) else None
 
 
 def _implication_counterexample(use: Any, definition: Any) -> dict | None:
@@ -37,8 +51,8 @@ def _implication_counterexample(use: Any, definition: Any) -> dict | None:
 
     atoms_u, atoms_d = tplq.guard_atoms(use), tplq.guard_atoms(definition)
     atoms = sorted(set(atoms_u) | set(atoms_d))
-    colls = sorted({_len_key(a)[0] for a in atoms if _len_key(a)} | {a for a in atoms if a.startswith("endpoint.") and a.endswith(("_parameters", "bodies"))})
-    free = [a for a in atoms if not _len_key(a) and a not in colls]
+    colls = sorted({_len_key(a)[0] for a in atoms if _len_key(a)} | {_coll_key(a) for a in atoms if _coll_key(a)})
+    free = [a for a in atoms if not _len_key(a) and not _coll_key(a)]
     ops = {"gt": lambda x, k: x > k, "ge": lambda x, k: x >= k, "eq": lambda x, k: x == k, "ne": lambda x, k: x != k,
            "lt": lambda x, k: x < k, "le": lambda x, k: x <= k}
     for lens in itertools.product(range(3), repeat=len(colls)):
@@ -49,10 +63,113 @@ def _implication_counterexample(use: Any, definition: Any) -> dict | None:
                 lk = _len_key(a)
                 if lk:
                     env[a] = ops[lk[1]](ln[lk[0]], lk[2])
-                elif a in colls:
-                    env[a] = ln[a] > 0
+                elif _coll_key(a):
+                    env[a] = ln[_coll_key(a)] > 0
             if tplq.guard_holds(use, {k: env[k] for k in atoms_u}) and not tplq.guard_holds(definition, {k: env[k] for k in atoms_d}):
                 return {**{f"len({k})": v for k, v in ln.items()}, **{k: env[k] for k in free}}
+    return None
+
+
+def _comp_bound(e: ast.AST) -> set[str]:
+    """names bound by the comprehensions inside e (their scope is the comprehension, they are not locals of the function)"""
+    return {t.id for c in ast.walk(e) if isinstance(c, ast.comprehension) for t in ast.walk(c.target) if isinstance(t, ast.Name)}
+
+
+def _stmt_values(lc: Locals, name: str) -> list[ast.AST]:
+    """what the statements of the function bind `name` to (comprehension variables of the same spelling are somebody else)"""
+    return [v for _, st, v in lc.defs.get(name, []) if v is not None and not isinstance(st, ast.comprehension)]
+
+
+def _sources(ix: Any, f: Any, e: ast.AST, stop: frozenset[str] = frozenset(), depth: int = 5) -> list[ast.AST]:
+    """e and every expression whose value may flow into it: the definitions of the locals it reads, the return values of the private
+    helpers it calls (and what flows into those), the module-level tables these read.  `stop`: locals that are not unfolded."""
+    out: list[ast.AST] = []
+    seen: set[int] = set()
+    helpers = {h.name: h for h in region(ix, f)[1:]}
+    lcs: dict[str, Locals] = {}
+
+    def go(g: Any, x: ast.AST, d: int) -> None:
+        if id(x) in seen or d < 0:
+            return
+        seen.add(id(x))
+        out.append(x)
+        lc = lcs.setdefault(g.qual, Locals(g.node))
+        params = {a.arg for a in g.params}
+        for nm in sorted(names_in(x) - _comp_bound(x) - stop):
+            vals = _stmt_values(lc, nm)
+            if not vals and nm not in params and nm in g.module.variables:
+                vals = [g.module.variables[nm]]
+            for v in vals:
+                go(g, v, d - 1)
+        for c in calls_in(x):
+            h = helpers.get(call_name(c).rsplit(".", 1)[-1])
+            if h is not None:
+                for r in ast.walk(h.node):
+                    if isinstance(r, ast.Return) and r.value is not None:
+                        go(h, r.value, d - 1)
+
+    go(f, e, depth)
+    return out
+
+
+def _py_stmts(text: str) -> Iterator[ast.stmt]:
+    """the complete Python statements written literally in a piece of template text (lines that are only part of a statement, because
+    the rest is an expression of the template, do not parse and are skipped)"""
+    lines = text.split("\n")
+    i = 0
+    while i < len(lines):
+        if not lines[i].strip():
+            i += 1
+            continue
+        for j in range(i + 1, min(i + 8, len(lines)) + 1):
+            try:
+                tree = ast.parse(textwrap.dedent("\n".join(lines[i:j])))
+            except (SyntaxError, ValueError):
+                continue
+            yield from tree.body
+            i = j
+            break
+        else:
+            i += 1
+
+
+def _absence_value(e: ast.expr, v: str, unset: bool, none: bool) -> bool | None:
+    """value of a filter condition over the entry value `v` when that value is UNSET (unset), None (none) or any other value (neither);
+    None when the condition tests anything but identity of `v` with UNSET / None (truthiness, equality, ...)"""
+    if isinstance(e, ast.BoolOp):
+        vals = [_absence_value(x, v, unset, none) for x in e.values]
+        if any(x is None for x in vals):
+            return None
+        return all(vals) if isinstance(e.op, ast.And) else any(vals)
+    if isinstance(e, ast.UnaryOp) and isinstance(e.op, ast.Not):
+        r = _absence_value(e.operand, v, unset, none)
+        return None if r is None else not r
+    if isinstance(e, ast.Compare) and len(e.ops) == 1 and isinstance(e.ops[0], (ast.Is, ast.IsNot)):
+        a, b = e.left, e.comparators[0]
+        if isinstance(b, ast.Name) and b.id == v:
+            a, b = b, a
+        if isinstance(a, ast.Name) and a.id == v:
+            r = unset if norm(b) == "UNSET" else none if norm(b) == "None" else None
+            return None if r is None else (r if isinstance(e.ops[0], ast.Is) else not r)
+    if isinstance(e, ast.Call) and call_name(e) == "isinstance" and len(e.args) == 2 and norm(e.args[0]) == v and norm(e.args[1]) == "Unset":
+        return unset
+    return None
+
+
+def _generated_class(jx: Any, template: str, cls: str) -> ast.ClassDef | None:
+    """the class as the template writes it (skeleton: macros inlined with the arguments of their call sites, holes as placeholders)"""
+    text = "\n".join(to_lines(SkelWalker(jx, frozenset()).walk_template(template))[0])
+    text = re.sub(HOLE + r"(\d+)" + HOLE, r"H_\1", text)
+    text = re.sub(OPQ + r"(\d+)" + OPQ, r"O_\1", text)
+    m = re.search(rf"^class {cls}\b.*?(?=^(?:class |def |async def |@)|\Z)", text, re.M | re.S)
+    for cand in (text, m.group(0) if m else ""):
+        try:
+            tree = ast.parse(cand)
+        except (SyntaxError, ValueError):
+            continue
+        for n in tree.body:
+            if isinstance(n, ast.ClassDef) and n.name == cls:
+                return n
     return None
 
 
@@ -68,12 +185,16 @@ def run(rep: Report, ctx: Any) -> str:
     rep.rule("R03.2", "definite assignment: the guard of every use of headers / cookies / params implies the guard of its definition")
     rep.rule("R03.3", "BodyType members = branches of body_to_kwarg = httpx keyword names; every media-type branch assigns a member; "
                       "Content-Type is set from body.content_type, which is the document's own key")
-    rep.rule("R03.4", "optional arguments are not sent: query filter, guarded header statements, guarded cookies")
+    rep.rule("R03.4", "optional arguments are not sent and set ones are: the query store is filtered, whenever it is built, by conditions "
+                      "that drop UNSET and keep every value that is neither UNSET nor None; guarded_statement emits the statement without "
+                      "its Unset test only for required properties (truth table); header stores go through guarded_statement")
     rep.rule("R03.5", "every property class that allows the header location and whose Python type is not str defines transform_header")
     rep.rule("R03.6", "sync_detailed/asyncio_detailed and sync/asyncio are equal as token streams modulo async/await and the client getter")
-    rep.rule("R03.7", "requires_security comes from the operation's security, selects AuthenticatedClient, and the credential header is "
-                      "injected in both httpx client constructors")
-    rep.rule("R03.9", "parameter identity is (name, location) in every de-duplication / override decision")
+    rep.rule("R03.7", "requires_security comes from the operation's security, selects AuthenticatedClient; in the AuthenticatedClient class as "
+                      "the template writes it, every construction of httpx.Client / httpx.AsyncClient is dominated by a store that overwrites "
+                      "headers[self.auth_header_name] with a value read from self.token")
+    rep.rule("R03.9", "parameter identity is (name, location): every comparison of the current parameter's name (or of a key built from it) in "
+                      "add_parameters also receives its location - in the key, or in what selects the collection compared against")
 
     # ---- R03.1 -------------------------------------------------------------------------------------------------------
     sites = {}
@@ -136,6 +257,7 @@ def run(rep: Report, ctx: Any) -> str:
     gk_end = next((f.line for f in top if f.kind == "data" and "def _parse_response(" in f.text), None)
     rep.require(gk_start is not None and gk_end is not None, "_get_kwargs region")
     n_uses = 0
+    def_frag: dict[str, Any] = {}
     for var, (mn, deftext) in defs.items():
         m = em.macros.get(mn)
         rep.require(m, mn)
@@ -143,6 +265,7 @@ def run(rep: Report, ctx: Any) -> str:
         rep.check(dfr is not None, "R03.2", f"{var}::defined", f"`{var}` is not defined by {mn}", where=f"{PKG}/templates/{em.name}")
         if dfr is None:
             continue
+        def_frag[var] = dfr
         pat = re.compile(rf'(?<![\w."]){var}\b(?!\s*=[^=])(?!")')
         uses = [f for f in top if f.kind == "data" and gk_start <= f.line < gk_end and pat.search(f.text)]
         uses += [f for f in tplq.frags(m.body) if f.kind == "data" and f is not dfr and re.search(rf"(?<![\w.\"]){var}[\[\.]", f.text)]
@@ -178,8 +301,11 @@ def run(rep: Report, ctx: Any) -> str:
     assigned = set()
     for c in body_calls:
         v = next((k.value for k in c.keywords if k.arg == "body_type"), None)
-        # the member is either written in place or held in a local: collect everything that local is assigned
-        assigned |= {norm(x) for x in bl.values_of(v.id)} if isinstance(v, ast.Name) else {norm(v)}
+        rep.require(v is not None, "Body(body_type=...)")
+        # the members that can reach Body(body_type=): written in place, held in a local, returned by a private helper, looked up in a
+        # module-level table - whatever flows into the argument
+        assigned |= {norm(n) for x in _sources(ix, bfd, v) for n in ast.walk(x)
+                     if isinstance(n, ast.Attribute) and isinstance(n.value, ast.Name) and n.value.id == bt.name}
     rep.check(assigned == {f"BodyType.{k}" for k in members}, "R03.3", "body_from_data::assigns-every-member",
               f"media type branches assign {sorted(assigned)}", where(bfd, bfd.node), lhs=sorted(assigned), rhs=sorted(f"BodyType.{k}" for k in members))
     # `body` is either the variable of the loop over endpoint.bodies or a local bound to endpoint.bodies[0] (canonical spellings)
@@ -190,8 +316,17 @@ def run(rep: Report, ctx: Any) -> str:
     cts = [f for f in tplq.frags(et.tree.body) if f.kind == "expr" and f.text in {b + ".content_type" for b in BODY}]
     rep.check(len(cts) >= 2, "R03.3", "endpoint_module.py.jinja::content-type-from-body", "Content-Type is not taken from body.content_type",
               where=f"{PKG}/templates/{et.name}")
-    single = [f for f in cts if any(("eq 1" in g or "== 1" in g) for g, p in f.guards if p)]
-    rep.check(bool(single) and any("multipart/form-data" in g for g, p in single[0].guards), "R03.3", "endpoint_module.py.jinja::multipart-boundary",
+    # the Content-Type of the only body (bound to endpoint.bodies[0], not to the loop over several): never emitted for multipart
+    single = [f for f in cts if "[0]" in f.text]
+
+    def _not_multipart(f: Any) -> bool:
+        for a in tplq.guard_atoms(f):
+            m = re.search(r" (ne|eq) ", a)
+            if m and ".content_type" in a and "'multipart/form-data'" in a and tplq.implies(f, a, m.group(1) == "ne"):
+                return True
+        return False
+
+    rep.check(bool(single) and all(_not_multipart(f) for f in single), "R03.3", "endpoint_module.py.jinja::multipart-boundary",
               "a single multipart body gets an explicit Content-Type (httpx must set the boundary)", where=f"{PKG}/templates/{et.name}")
     for c in body_calls:
         loop = next((n for n in ast.walk(bfd.node) if isinstance(n, ast.For) and norm(n.iter).endswith(".items()") and any(x is c for x in ast.walk(n))), None)
@@ -205,13 +340,49 @@ def run(rep: Report, ctx: Any) -> str:
     # ---- R03.4 (shared shapes with C10) ------------------------------------------------------------------------------------
     gs = jx.templates["property_templates/helpers.jinja"].macros.get("guarded_statement")
     rep.require(gs, "guarded_statement")
-    for n in gs.find_all(nodes.If):
-        rep.check(expr_text(n.test) == "property.required", "R03.4", "guarded_statement::guard-skipped-only-when-required",
-                  f"the Unset guard of header / dict-valued query statements is skipped under `{expr_text(n.test)}`",
-                  where=f"{PKG}/templates/property_templates/helpers.jinja:{n.lineno}", lhs=expr_text(n.test), rhs="property.required")
+    rep.require(len(gs.args) >= 3, "guarded_statement(property, source, statement)")
+    gprop, gstm = gs.args[0].name, gs.args[2].name
+    gfr = list(tplq.frags(gs.body))
+    n_stm = 0
+    for i, fr in enumerate(gfr):
+        if fr.kind != "expr" or fr.text != gstm:
+            continue
+        n_stm += 1
+        # the generated text of the same arm up to this emission: is the statement written under an `if ...Unset...:` line?
+        before = "".join((g.text if g.kind == "data" else "X") for g in gfr[:i] if g.guards == fr.guards).split("\n")
+        header = next((ln for ln in reversed(before[:-1]) if ln.strip()), "")
+        guarded = bool(re.match(r"\s*if\b.*\b(Unset|UNSET)\b.*:\s*$", header)) and len(before[-1]) > len(header) - len(header.lstrip())
+        if guarded:
+            continue
+        rep.check(tplq.implies(fr, f"{gprop}.required", True), "R03.4", "guarded_statement::guard-skipped-only-when-required",
+                  f"the Unset guard of header / dict-valued query statements is skipped under {[g for g in fr.guards]}",
+                  where=f"{PKG}/templates/property_templates/helpers.jinja:{fr.line}", lhs=[g for g in fr.guards], rhs=f"implies {gprop}.required")
+    rep.require(n_stm > 0, "guarded_statement emits its statement")
     calls = [c for c in hp.find_all(nodes.Call) if expr_text(c.node) == "guarded_statement"]
     rep.check(len(calls) == 1, "R03.4", "header_params::through-guarded_statement", "header stores do not go through guarded_statement",
               where=f"{PKG}/templates/{em.name}")
+    # the query store: entries are dropped after the fact by a comprehension over <store>.items()
+    qp = em.macros.get("query_params")
+    filters = []     # (fragment, condition, value variable)
+    for fr in tplq.frags(qp.body):
+        if fr.kind != "data" or "params" not in fr.text:
+            continue
+        for st in _py_stmts(fr.text):
+            for comp in ast.walk(st):
+                if isinstance(comp, (ast.DictComp, ast.ListComp, ast.SetComp, ast.GeneratorExp)) and len(comp.generators) == 1 \
+                        and norm(comp.generators[0].iter) == "params.items()" and isinstance(comp.generators[0].target, ast.Tuple) \
+                        and len(comp.generators[0].target.elts) == 2 and isinstance(comp.generators[0].target.elts[1], ast.Name):
+                    g = comp.generators[0]
+                    for cond in g.ifs:
+                        filters.append((fr, cond, g.target.elts[1].id))
+    drops_unset = [(fr, c) for fr, c, v in filters if _absence_value(c, v, True, False) is not True]
+    rep.check(bool(drops_unset) and "params" in def_frag and any(_implication_counterexample(def_frag["params"], fr) is None for fr, _ in drops_unset),
+              "R03.4", "query_params::unset-filtered", "no filter drops UNSET from the query store whenever the store is built: unset optional "
+              "arguments would be sent", where=f"{PKG}/templates/{em.name}:{qp.lineno}", lhs=[norm(c) for _, c in drops_unset], rhs="a condition false for UNSET")
+    for fr, c, v in filters:
+        rep.check(_absence_value(c, v, False, False) is True, "R03.4", "query_params::set-values-kept",
+                  f"the query filter `{norm(c)}` is not decided by identity with UNSET / None alone: a set argument (False, 0, \"\") can be dropped",
+                  where=f"{PKG}/templates/{em.name}:{fr.line}", lhs=norm(c), rhs="true for every value that is neither UNSET nor None")
 
     # ---- R03.5 -------------------------------------------------------------------------------------------------------------
     n_h = 0
@@ -272,39 +443,112 @@ def run(rep: Report, ctx: Any) -> str:
     fr = [f for f in tplq.frags(arg.body) if f.kind == "data" and "client: AuthenticatedClient," in f.text]
     rep.check(bool(fr) and tplq.implies(fr[0], "endpoint.requires_security", True), "R03.7", "arguments::authenticated-client-when-secured",
               "a secured operation does not demand an AuthenticatedClient", where=f"{PKG}/templates/{em.name}")
-    ct = jx.templates.get("client.py.jinja")
-    hs = ct.macros.get("httpx_stuff")
-    inj = [f for f in tplq.frags(hs.body) if f.kind == "expr" and f.text.startswith("custom_constructor")]
-    rep.check(len(inj) == 2, "R03.7", "client.py.jinja::credential-injected-in-both-constructors", "the credential header is not injected into both the "
-              "blocking and the async httpx client", where=f"{PKG}/templates/client.py.jinja", lhs=len(inj), rhs=2)
-    top_calls = [expr_text(c) for o in ct.tree.find_all(nodes.Output) for c in o.nodes if isinstance(c, nodes.Call) and expr_text(c.node) == "httpx_stuff"]
-    rep.check(any("AuthenticatedClient" in c and "auth_header_name" in c for c in top_calls), "R03.7", "client.py.jinja::authenticated-client-passes-injection",
-              "AuthenticatedClient no longer passes the header injection to httpx_stuff", where=f"{PKG}/templates/client.py.jinja")
+    rep.require("client.py.jinja" in jx.templates, "client.py.jinja")
+    ac = _generated_class(jx, "client.py.jinja", "AuthenticatedClient")
+    rep.require(ac is not None, "class AuthenticatedClient as written by client.py.jinja")
+
+    def _overwrites_credential(x: Any, headers: str) -> bool:
+        """x unconditionally replaces headers[self.auth_header_name] by a value read from self.token (setdefault / a test for presence would
+        keep a stale entry of a dict that outlives the httpx client)"""
+        def from_token(v: ast.AST | None) -> bool:
+            return v is not None and any(isinstance(n, ast.Attribute) and norm(n) == "self.token" for n in ast.walk(v))
+
+        if isinstance(x, (ast.Assign, ast.AnnAssign)):
+            for t in (x.targets if isinstance(x, ast.Assign) else [x.target]):
+                if isinstance(t, ast.Subscript) and norm(t.value) == headers and norm(t.slice) == "self.auth_header_name" and from_token(x.value):
+                    return True
+        if isinstance(x, ast.Expr) and isinstance(x.value, ast.Call) and isinstance(x.value.func, ast.Attribute) and x.value.func.attr == "update" \
+                and norm(x.value.func.value) == headers:
+            for a in x.value.args:
+                if isinstance(a, ast.Dict) and any(k is not None and norm(k) == "self.auth_header_name" and from_token(v) for k, v in zip(a.keys, a.values)):
+                    return True
+        return False
+
+    built: dict[str, bool] = {}
+    for m in ac.body:
+        if not isinstance(m, (ast.FunctionDef, ast.AsyncFunctionDef)):
+            continue
+        for c in calls_in(m):
+            if call_name(c) not in ("httpx.Client", "httpx.AsyncClient"):
+                continue
+            hdr = next((norm(k.value) for k in c.keywords if k.arg == "headers"), None)
+            st = stmt_of(m, c)
+            good = hdr is not None and st is not None and CFG(m).is_dominated_by(st, lambda x: isinstance(x, ast.stmt) and _overwrites_credential(x, hdr))
+            built[call_name(c)] = built.get(call_name(c), True) and good
+    rep.check(set(built) == {"httpx.Client", "httpx.AsyncClient"} and all(built.values()), "R03.7", "client.py.jinja::credential-injected-in-both-constructors",
+              "AuthenticatedClient does not overwrite its credential header on every path to the construction of both the blocking and the "
+              "async httpx client", where=f"{PKG}/templates/client.py.jinja", lhs=built, rhs={"httpx.Client": True, "httpx.AsyncClient": True})
 
     # ---- R03.9 ------------------------------------------------------------------------------------------------------------------
     ap = ix.func("Endpoint.add_parameters")
     n_id = 0
     ploops = [n for n in ast.walk(ap.node) if isinstance(n, ast.For) and norm(n.iter) == "data.parameters"]
     rep.require(ploops, "loop over data.parameters")
-    pv = norm(ploops[0].target)
+    loop = ploops[0]
     al = Locals(ap.node)
-    # identity keys: locals bound to a tuple that contains <p>.name
-    keys = {nm: v for nm in al.defs for v in al.values_of(nm) if isinstance(v, ast.Tuple) and f"{pv}.name" in [norm(e) for e in v.elts]}
-    for nm, v in keys.items():
-        rep.check({norm(e) for e in v.elts} == {f"{pv}.name", f"{pv}.param_in"}, "R03.9", "Endpoint.add_parameters::unique_param",
-                  "the de-duplication key is not (name, location)", where(ap, v), lhs=norm(v), rhs=f"({pv}.name, {pv}.param_in)")
+    # the parameter under consideration, whatever the function calls it: the loop variable, what parameter_from_reference resolves it
+    # to, and aliases of these
+    P = {t.id for t in ast.walk(loop.target) if isinstance(t, ast.Name)}
+    grew = True
+    while grew:
+        grew = False
+        for nm, ds in al.defs.items():
+            if nm in P:
+                continue
+            for kind, _, v in ds:
+                if kind == "assign" and ((isinstance(v, ast.Name) and v.id in P) or (
+                        isinstance(v, ast.Call) and call_name(v).rsplit(".", 1)[-1] == "parameter_from_reference" and names_in(v) & P)):
+                    P.add(nm)
+                    grew = True
+    pv = "|".join(sorted(P))
+
+    def p_attr(e: ast.AST, attr: str) -> bool:
+        return isinstance(e, ast.Attribute) and e.attr == attr and isinstance(e.value, ast.Name) and e.value.id in P
+
+    def is_key(e: ast.AST) -> bool:
+        return isinstance(e, ast.Tuple) and any(p_attr(x, "name") for x in e.elts)
+
+    def full_key(e: ast.Tuple) -> bool:
+        return all(p_attr(x, "name") or p_attr(x, "param_in") for x in e.elts) and any(p_attr(x, "param_in") for x in e.elts)
+
+    def identity_of(e: ast.AST, depth: int = 3) -> ast.AST | None:
+        """the parameter's name, or a key built from it, that e stands for (through local aliases)"""
+        if p_attr(e, "name") or is_key(e):
+            return e
+        if isinstance(e, ast.Name) and e.id not in P and depth:
+            for v in _stmt_values(al, e.id):
+                r = identity_of(v, depth - 1)
+                if r is not None:
+                    return r
+        return None
+
+    # identity keys: tuples that contain <p>.name
+    keys = [n for n in ast.walk(loop) if is_key(n)]
+    for v in keys:
+        rep.check(full_key(v), "R03.9", "Endpoint.add_parameters::unique_param",
+                  "the de-duplication key is not (name, location)", where(ap, v), lhs=norm(v), rhs=f"(<{pv}>.name, <{pv}>.param_in)")
     rep.check(bool(keys), "R03.9", "Endpoint.add_parameters::unique_param", "no (name, location) key is built", where(ap, ap.node))
-    for n in ast.walk(ploops[0]):
-        if isinstance(n, ast.If) and any(isinstance(s, (ast.Continue, ast.Return)) for s in n.body):
-            tt = norm(n.test)
-            used = names_in(n.test)
-            if f"{pv}.name" in tt or used & set(keys):
-                n_id += 1
-                both = (f"{pv}.param_in" in tt and f"{pv}.name" in tt) or any(
-                    k in used and {norm(e) for e in keys[k].elts} == {f"{pv}.name", f"{pv}.param_in"} for k in keys)
-                rep.check(both, "R03.9", f"Endpoint.add_parameters::identity[{n_id}]",
-                          "a parameter is skipped / rejected by name alone: a path-item parameter with the same name in another location is lost",
-                          where(ap, n), lhs=tt[:100], rhs="test involves the name and the location")
+    comps = [n for n in ast.walk(loop) if isinstance(n, (ast.GeneratorExp, ast.ListComp, ast.SetComp, ast.DictComp))]
+    cmps = [n for n in ast.walk(loop) if isinstance(n, ast.Compare) and len(n.ops) == 1 and isinstance(n.ops[0], (ast.Eq, ast.NotEq, ast.In, ast.NotIn))]
+    for n in sorted(cmps, key=lambda c: (c.lineno, c.col_offset)):
+        sides = [n.left, n.comparators[0]]
+        ident = [identity_of(x) for x in sides]
+        if ident[0] is None and ident[1] is None:
+            continue
+        n_id += 1
+        idn, other = (ident[0], sides[1]) if ident[0] is not None else (ident[1], sides[0])
+        if is_key(idn):
+            both = full_key(idn)
+        else:
+            # compared by name alone: the location must have selected what the name is compared against - it flows into the other
+            # operand (for a comparison inside a comprehension: into the comprehension), or the parameter is handed over as a whole
+            unit = next((k for k in comps if any(x is n for x in ast.walk(k))), other)
+            flow = _sources(ix, ap, unit, stop=frozenset(P))
+            both = any(p_attr(x, "param_in") for e in flow for x in ast.walk(e)) or any(
+                isinstance(a, ast.Name) and a.id in P for e in flow for c in calls_in(e) for a in [*c.args, *[k.value for k in c.keywords]])
+        rep.check(both, "R03.9", f"Endpoint.add_parameters::identity[{n_id}]",
+                  "a parameter is skipped / rejected by name alone: a path-item parameter with the same name in another location is lost",
+                  where(ap, n), lhs=norm(n)[:100], rhs="comparison involves the name and the location")
     rep.floor("parameter_identity_tests", n_id, 2)
     rep.not_decided += ["the bytes httpx actually sends"]
     return LEVEL
